@@ -105,9 +105,17 @@ func c06single(w *W, y *yielder, policy string, cap, prefill int, ops string, ta
 		n++
 		return fmt.Sprintf("id-%s%dx%d-%d", kind, w.Spec.Shard, tagN, n)
 	}
+	// some histories use very large raw payloads (size must not change how a raw write is queued)
+	pad := ""
+	switch {
+	case tagN%7 == 3:
+		pad = strings.Repeat("x", 70_000)
+	case tagN%31 == 11:
+		pad = strings.Repeat("y", 1<<20)
+	}
 	submit := func(kind byte, id string) {
 		if kind == 'W' {
-			l.Write([]byte("raw " + id + "\n"))
+			l.Write([]byte("raw " + id + "\n" + pad))
 		} else {
 			appendEvent(l, log.InfoLevel, id)
 		}
